@@ -14,11 +14,13 @@ import (
 	"sort"
 	"strings"
 	"sync"
+	"sync/atomic"
 	"testing"
 	"time"
 
 	"github.com/btcsuite/btcd/btcec/v2"
 	"github.com/btcsuite/btcd/btcutil/v2"
+	"github.com/btcsuite/btclog/v2"
 	"github.com/btcsuite/btcd/wire/v2"
 	"github.com/lightningnetwork/lnd/channeldb"
 	"github.com/lightningnetwork/lnd/chanstate"
@@ -216,6 +218,13 @@ func (t *c08Tap) copy() []c08Rec {
 	return append([]c08Rec(nil), t.recs...)
 }
 
+// touch restarts the silence clock (a payment has just been handed to a switch).
+func (t *c08Tap) touch() {
+	t.mu.Lock()
+	t.last = time.Now()
+	t.mu.Unlock()
+}
+
 func (t *c08Tap) state() (int, time.Duration) {
 	t.mu.Lock()
 	defer t.mu.Unlock()
@@ -303,8 +312,11 @@ func c08CreateLink(h *hopNetwork, server *mockServer, peer lnpeer.Peer,
 			Circuits:           server.htlcSwitch.CircuitModifier(),
 			ForwardPackets:     forwardPackets,
 			DecodeHopIterators: decoder.DecodeHopIterators,
+			// a fresh mock encrypter per call: the fixture shares ONE mutable mockObfuscator between
+			// all links of all nodes, which is a data race inside the mock (EncryptFirstHop stores the
+			// failure in it) as soon as two links fail something concurrently
 			ExtractErrorEncrypter: func(*btcec.PublicKey) (hop.ErrorEncrypter, lnwire.FailCode) {
-				return h.obfuscator, lnwire.CodeNone
+				return NewMockObfuscator(), lnwire.CodeNone
 			},
 			FetchLastChannelUpdate: mockGetChanUpdateMessage,
 			Registry:               server.registry,
@@ -367,6 +379,10 @@ type c08Net struct {
 	hn   *hopNetwork
 	regs [3]*mockInvoiceRegistry
 	pcs  [3]*mockPreimageCache
+	// api is held (shared) by a payment goroutine while it is inside SendHTLC / GetAttemptResult and
+	// (exclusively) by the network restart: Switch.GetAttemptResult does wg.Add while Switch.Stop may
+	// be in wg.Wait - the driver does not call into a switch that it is stopping
+	api sync.RWMutex
 }
 
 func (cn *c08Net) peer(remote *mockServer, from, ch string) *c08Peer {
@@ -457,7 +473,9 @@ func (cn *c08Net) restore(idx ...int) (map[int]*lnwallet.LightningChannel, error
 // (circuit maps reloaded from disk), new links.
 func (cn *c08Net) netRestart() error {
 	cn.tap.bump("AB", "BC")
+	cn.api.Lock()
 	cn.n.stop()
+	cn.api.Unlock()
 	cn.tap.note(c08Rec{"a": "Restart", "kind": "net", "ch": "all"})
 	m, err := cn.restore(0, 1, 2, 3)
 	if err != nil {
@@ -601,12 +619,22 @@ func (cn *c08Net) launch(p *c08Pay) {
 		}
 	}
 	p.setRes("pending")
+	cn.tap.touch()
 	go func() {
-		if err := sender.htlcSwitch.SendHTLC(firstHop, pid, htlc); err != nil {
+		cn.api.RLock()
+		if atomicLoadShutdown(sender) {
+			cn.api.RUnlock()
+			p.setRes("lost")
+			return
+		}
+		err := sender.htlcSwitch.SendHTLC(firstHop, pid, htlc)
+		if err != nil {
+			cn.api.RUnlock()
 			p.setRes("senderr")
 			return
 		}
 		rc, err := sender.htlcSwitch.GetAttemptResult(pid, p.hash, newMockDeobfuscator())
+		cn.api.RUnlock()
 		if err != nil {
 			p.setRes("lost")
 			return
@@ -623,8 +651,12 @@ func (cn *c08Net) launch(p *c08Pay) {
 	}()
 }
 
-// resolveHold settles or cancels a hold invoice at the receiver.
-func (cn *c08Net) resolveHold(p *c08Pay) {
+func atomicLoadShutdown(s *mockServer) bool {
+	return atomic.LoadInt32(&s.shutdown) == 1
+}
+
+// resolveHold settles or cancels a hold invoice at the receiver (final: record a failed attempt too).
+func (cn *c08Net) resolveHold(p *c08Pay, final bool) {
 	reg := cn.regs[2]
 	if p.Dir == "rev" {
 		reg = cn.regs[0]
@@ -640,6 +672,9 @@ func (cn *c08Net) resolveHold(p *c08Pay) {
 	ok := 1
 	if err != nil {
 		ok = 0
+		if !final {
+			return
+		}
 	} else {
 		p.resolved = true
 	}
@@ -835,10 +870,11 @@ func c08Run(t *testing.T, run int, name string, items []c08Item) (recs []c08Rec,
 		case s.pay != nil:
 			cn.launch(s.pay)
 		case s.res != nil:
-			if !idleOut {
-				cn.resolveHold(s.res)
-			}
-		case s.f != nil && !idleOut:
+			cn.resolveHold(s.res, false)
+		case s.f != nil:
+			// (a trigger that is never reached fires when the network has fallen silent: a fault
+			// in a quiet network, typically with hold invoices still held)
+			_ = idleOut
 			var err error
 			switch s.f.Kind {
 			case "net":
@@ -895,8 +931,12 @@ func c08Run(t *testing.T, run int, name string, items []c08Item) (recs []c08Rec,
 	q := cn.waitQuiet(10*time.Second, pays, true)
 	// resolve the hold invoices that are still held, then wait again
 	for _, p := range pays {
-		if strings.HasPrefix(p.Kind, "hold") && !p.resolved {
-			cn.resolveHold(p)
+		// (an invoice whose HTLC has not arrived yet cannot be settled: a few attempts)
+		for i := 0; i < 15 && strings.HasPrefix(p.Kind, "hold") && !p.resolved; i++ {
+			cn.resolveHold(p, i == 14)
+			if !p.resolved {
+				time.Sleep(100 * time.Millisecond)
+			}
 		}
 	}
 	q = cn.waitQuiet(10*time.Second, pays, false) && q
@@ -945,6 +985,14 @@ func c08FreePlan(rng *rand.Rand) []c08Item {
 
 func TestVerifC08Forwarding(t *testing.T) {
 	out := verifkit.Env("VERIF_OUT", os.TempDir())
+	if os.Getenv("VERIF_LOG") != "" {
+		// development aid: lnd's own log of the links and channels to a file
+		lf, _ := os.Create(filepath.Join(out, "lnd.log"))
+		lg := btclog.NewSLogger(btclog.NewDefaultHandler(lf))
+		lg.SetLevel(btclog.LevelDebug)
+		UseLogger(lg)
+		lnwallet.UseLogger(lg)
+	}
 	w := verifkit.MustWriter(filepath.Join(out, "trace.ndjson"))
 	defer w.Close()
 	type job struct {
@@ -971,6 +1019,20 @@ func TestVerifC08Forwarding(t *testing.T) {
 	rng := rand.New(rand.NewSource(verifkit.Seed()*7919 + 17))
 	for i := 0; i < verifkit.EnvInt("VERIF_FREE", 0); i++ {
 		jobs = append(jobs, job{fmt.Sprintf("free_%d", i), c08FreePlan(rng)})
+	}
+	if only := os.Getenv("VERIF_ONLY"); only != "" {
+		// development aid: run only the named plans, VERIF_REPEAT times each
+		var sel []job
+		for _, j := range jobs {
+			for _, n := range strings.Split(only, ",") {
+				if j.name == n {
+					for k := 0; k < verifkit.EnvInt("VERIF_REPEAT", 1); k++ {
+						sel = append(sel, j)
+					}
+				}
+			}
+		}
+		jobs = sel
 	}
 	par := verifkit.EnvInt("VERIF_PAR", 3)
 	var mu sync.Mutex
